@@ -121,6 +121,8 @@ def run(ctx):
     asked = {c.id for n in walk_no_nested(sub.node) if isinstance(n, ast.Compare) and len(n.ops) == 1 and isinstance(n.ops[0], (ast.In, ast.NotIn))
              for c in n.comparators if isinstance(c, ast.Name)}
     guards = made & asked
+    if not copy_nodes:
+        ctx.ok('R18.7', 'no per-iteration template copy to start from (reported by R18.2)')
     if copy_nodes:
         cp = copy_nodes[0]
         marks = {n.id for n in cfg.nodes for x in subnodes(cfg, n)
